@@ -42,9 +42,8 @@ type G struct {
 	killed bool
 	Name   string
 	nspawn uint64
-	// stalled: held back by a "stall" deviation until the virtual clock leaves stallAt
+	// stalled: held back by a "stall" deviation until just after the next timer instant
 	stalled bool
-	stallAt int64
 	// result slots for completed-by-partner operations
 	rval any
 	rok  bool
@@ -155,7 +154,7 @@ var DefaultPolicy int
 var StrictDeviations bool
 
 // StallDeviations adds one more alternative at every scheduling point at which the running goroutine could go
-// on and a timer lies in the future: the goroutine is held back until the virtual clock has moved (a
+// on and a timer lies in the future: the goroutine is held back until just after the next timer instant (a
 // pre-emption that lasts; the maximal-progress clock otherwise never lets time pass while something is
 // runnable).  It costs one deviation.  Only for scenarios whose oracle does not bound how late a goroutine may
 // act.
@@ -391,7 +390,7 @@ func (s *Sched) schedule(self *G) {
 		// collect enabled goroutines in canonical order
 		var evG []*G
 		curEnabled := false
-		if !self.done && self.pend != nil && !(self.stalled && self.stallAt == s.now) && self.pend.isEnabled() {
+		if !self.done && self.pend != nil && !self.stalled && self.pend.isEnabled() {
 			evG = append(evG, self)
 			curEnabled = true
 		}
@@ -410,7 +409,7 @@ func (s *Sched) schedule(self *G) {
 			if g == self || g.done || g.pend == nil {
 				continue
 			}
-			if g.stalled && g.stallAt == s.now {
+			if g.stalled {
 				continue
 			}
 			if g.pend.isEnabled() {
@@ -454,8 +453,14 @@ func (s *Sched) schedule(self *G) {
 			}
 		}
 		if stallable && c == n-1 {
-			self.stalled, self.stallAt = true, s.now
+			// held back until just after the next timer instant: whatever that instant wakes runs first
+			self.stalled = true
 			self.h = mix(self.h, 0x57a11)
+			g := self
+			save := s.cur
+			s.cur = nil
+			AddTimer(s.timers[0].when+1-s.now, 0, func() { g.stalled = false })
+			s.cur = save
 			continue
 		}
 		if c >= len(evG) {
